@@ -855,6 +855,56 @@ theorem corrupt_rejected (k : Kind) (id : Lumina.Util.Bytes) (h : id.length = 20
               · exact r2 hr
               · exact r1 hr
 
+/-! ## the crate's 5→8 regrouping is the bit-string regrouping of the spec -/
+
+theorem fesToBytes_eq_regroup8 (fs : List Nat) (h : ∀ f ∈ fs, f < 32) : fesToBytes fs = Lumina.Spec.C47.regroup8 fs := by
+  unfold Lumina.Spec.C47.regroup8
+  fun_induction fesToBytes fs with
+  | case1 f0 f1 f2 f3 f4 f5 f6 f7 rest ih =>
+    simp only [List.mem_cons, forall_eq_or_imp] at h
+    obtain ⟨h0, h1, h2, h3, h4, h5, h6, h7, hr⟩ := h
+    simp only [List.flatMap_cons, Lumina.Spec.C47.bits5, List.cons_append, List.nil_append, Lumina.Spec.C47.bytesOfBits, ← ih hr,
+      List.cons.injEq, and_true]
+    omega
+  | case2 f0 f1 f2 f3 f4 f5 f6 =>
+    simp only [List.mem_cons, forall_eq_or_imp] at h
+    obtain ⟨h0, h1, h2, h3, h4, h5, h6, -⟩ := h
+    simp only [List.flatMap_cons, List.flatMap_nil, Lumina.Spec.C47.bits5, List.cons_append, List.nil_append, List.append_nil,
+      Lumina.Spec.C47.bytesOfBits, List.cons.injEq, and_true]
+    omega
+  | case3 f0 f1 f2 f3 f4 f5 =>
+    simp only [List.mem_cons, forall_eq_or_imp] at h
+    obtain ⟨h0, h1, h2, h3, h4, h5, -⟩ := h
+    simp only [List.flatMap_cons, List.flatMap_nil, Lumina.Spec.C47.bits5, List.cons_append, List.nil_append, List.append_nil,
+      Lumina.Spec.C47.bytesOfBits, List.cons.injEq, and_true]
+    omega
+  | case4 f0 f1 f2 f3 f4 =>
+    simp only [List.mem_cons, forall_eq_or_imp] at h
+    obtain ⟨h0, h1, h2, h3, h4, -⟩ := h
+    simp only [List.flatMap_cons, List.flatMap_nil, Lumina.Spec.C47.bits5, List.cons_append, List.nil_append, List.append_nil,
+      Lumina.Spec.C47.bytesOfBits, List.cons.injEq, and_true]
+    omega
+  | case5 f0 f1 f2 f3 =>
+    simp only [List.mem_cons, forall_eq_or_imp] at h
+    obtain ⟨h0, h1, h2, h3, -⟩ := h
+    simp only [List.flatMap_cons, List.flatMap_nil, Lumina.Spec.C47.bits5, List.cons_append, List.nil_append, List.append_nil,
+      Lumina.Spec.C47.bytesOfBits, List.cons.injEq, and_true]
+    omega
+  | case6 f0 f1 f2 =>
+    simp only [List.mem_cons, forall_eq_or_imp] at h
+    obtain ⟨h0, h1, h2, -⟩ := h
+    simp only [List.flatMap_cons, List.flatMap_nil, Lumina.Spec.C47.bits5, List.cons_append, List.nil_append, List.append_nil,
+      Lumina.Spec.C47.bytesOfBits, List.cons.injEq, and_true]
+    omega
+  | case7 f0 f1 =>
+    simp only [List.mem_cons, forall_eq_or_imp] at h
+    obtain ⟨h0, h1, -⟩ := h
+    simp only [List.flatMap_cons, List.flatMap_nil, Lumina.Spec.C47.bits5, List.cons_append, List.nil_append, List.append_nil,
+      Lumina.Spec.C47.bytesOfBits, List.cons.injEq, and_true]
+    omega
+  | case8 f0 => simp [Lumina.Spec.C47.bits5, Lumina.Spec.C47.bytesOfBits]
+  | case9 => simp [Lumina.Spec.C47.bytesOfBits]
+
 /-! ## the three prefixes -/
 
 open Lumina.Spec.C47 (K) in
